@@ -173,7 +173,7 @@ def run(facts, res):
                     tags.append("prev")
                 elif contains_call(e, "digest"):
                     tags.append("rev.digest")
-                elif any(x[0] in ("upvar", "var", "param") and x[2] == "uuid" for x in walk(e)):
+                elif contains_call(e, "clone") and not contains_call(e, "to_string"):
                     tags.append("uuid")
                 else:
                     tags.append(None)
@@ -266,10 +266,10 @@ def run(facts, res):
                 kind = None
                 if inner[0] == "const" and inner[1] == "bool":
                     kind = "clear" if inner[2] is False else "set"
-                elif inner[0] == "binop" and inner[1] == "BitOr" and any(x[0] == "param" and x[2] == "staging" for x in walk(inner)) and \
+                elif inner[0] == "binop" and inner[1] == "BitOr" and any(x[0] == "param" and b.local_ty(x[1]) == "bool" for x in walk(inner)) and \
                         any(x[0] == "field" and x[2] == "staging" for x in walk(inner)):
                     kind = "or-arg"
-                elif inner[0] == "param" and inner[2] == "staging":
+                elif inner[0] == "param" and b.local_ty(inner[1]) == "bool":
                     kind = "or-arg"
                 allowed = {"clear": ("commit", "unstage"), "or-arg": ("unvalidated_add", "new"), "set": ()}
                 ok = kind is not None and b.name in allowed.get(kind, ())
@@ -283,7 +283,7 @@ def run(facts, res):
                     n5 += 1
                     f = stt.rv.j["fields"]
                     t = du_of(b).operand_term(stt.rv.operands()[f.index("staging")], 6)
-                    ok = (t[0] == "const" and t[2] is False) or (peel(t)[0] == "param" and peel(t)[2] == "staging")
+                    ok = (t[0] == "const" and t[2] is False) or (peel(t)[0] == "param" and b.local_ty(peel(t)[1]) == "bool")
                     res.instance("G5", "%s initialises %s.staging from %s" % (b.path, stt.rv.j["adt"].rsplit("::", 1)[-1], fmt(t, 3)), b.loc(stt.line))
                     if not ok:
                         res.violation("G5", "%s|staging-flag-init" % b.path, "%s initialises a staging flag from %s" % (b.path, fmt(t, 3)), b.loc(stt.line))
